@@ -161,35 +161,75 @@ def run(ctx):
                   range_x=(0, 0), range_type="absolute")
         idnt = copy.deepcopy(idnt0)
         refit = rng.random() < 0.3
+        refit_kind = None
         if refit:
-            # a first fit with a wrong fixed geometry / Poisson ratio, then the corrected guess on the
-            # same object: the second fit must recover the truth as well
-            wrong = copy.deepcopy(p0)
-            g = [n_ for n_ in ("R", "alpha", "nu", "nu_S") if n_ in wrong][0]
-            wrong[g].set(value=wrong[g].value * (0.5 if g != "R" else 2.0))
             kw1 = copy.deepcopy(kw)
-            kw1["params_initial"] = wrong
+            if rng.random() < 0.6:
+                # a first fit with a wrong fixed geometry / Poisson ratio, then the corrected guess on the
+                # same object: the second fit must recover the truth as well
+                refit_kind = "wrong-geometry"
+                wrong = copy.deepcopy(p0)
+                g = [n_ for n_ in ("R", "alpha", "nu", "nu_S") if n_ in wrong][0]
+                wrong[g].set(value=wrong[g].value * (0.5 if g != "R" else 2.0))
+                kw1["params_initial"] = wrong
+            else:
+                # a first fit whose limits exclude the generating modulus, then the SAME start values with
+                # the limits widened again: only min/max differ between the two guesses
+                refit_kind = "limits-widened"
+                lim = copy.deepcopy(p0)
+                m0 = moduli(lim)[0]
+                lo = min(p0[m0].value, truth[m0].value) * 0.5
+                hi = 0.5 * (p0[m0].value + truth[m0].value) if p0[m0].value < truth[m0].value else None
+                if hi is None:
+                    lim[m0].set(min=0.5 * (p0[m0].value + truth[m0].value), max=p0[m0].value * 2)
+                else:
+                    lim[m0].set(min=lo, max=hi)
+                kw1["params_initial"] = lim
             fitlib.fit(idnt, **kw1)
-        res, rec = fitlib.fit(idnt, **copy.deepcopy(kw))
+        # "fitting that model": the documented entry points are Indentation.fit_model and the fitter class itself
+        # (keyword arguments in any order)
+        direct = (not refit) and rng.random() < 0.25
+        if direct:
+            import warnings as _w
+            from nanite.fit import IndentationFitter
+            keys = list(kw)
+            rng.shuffle(keys)
+            with _w.catch_warnings():
+                _w.simplefilter("ignore")
+                try:
+                    fitter = IndentationFitter(idnt, **{k_: copy.deepcopy(kw[k_]) for k_ in keys})
+                    fitter.fit()
+                    res = "ok"
+                except BaseException as e:  # noqa
+                    res = "err " + type(e).__name__
+            fprops = fitter.fp if res == "ok" else {}
+            fitcurve = fitter.fit_curve if res == "ok" else None
+        else:
+            res, rec = fitlib.fit(idnt, **copy.deepcopy(kw))
+            fprops = idnt.fit_properties
+            fitcurve = np.asarray(idnt["fit"]) if "fit" in idnt else None
         meta = {"model": mk, "segment": seg, "n": n_app, "noise_rel": rel_noise, "method": method,
-                "weight_cp": wcp, "refit_after_wrong_geometry": refit, "jitter": jitter, "truth": {k: float(truth[k].value) for k in truth},
+                "weight_cp": wcp, "refit": refit_kind, "jitter": jitter,
+                "entry": ("IndentationFitter(idnt, " + ", ".join(keys) + ")") if direct else "fit_model",
+                "truth": {k: float(truth[k].value) for k in truth},
                 "guess": {k: float(p0[k].value) for k in p0 if p0[k].vary}}
         ctx.case(meta, nontrivial=json.dumps(meta, sort_keys=True),
                  bucket=["model=" + mk, "method=" + method, f"noise={rel_noise}", f"segment={seg}",
-                         f"weight={wcp}", "result=" + res, f"jitter={jitter}"])
+                         f"weight={wcp}", "result=" + res, f"jitter={jitter}",
+                         "entry=" + ("fitter-class" if direct else "fit_model"), f"refit={refit_kind}"])
         rep = {"input": meta}
         tag = f"{mk}:{method}:noise={rel_noise}"
         if method not in ASSERTED:
-            okk = res == "ok" and idnt.fit_properties.get("success") and \
-                abs(idnt.fit_properties["params_fitted"]["E_S" if mk.startswith("power") else "E"].value /
+            okk = res == "ok" and fprops.get("success") and \
+                abs(fprops["params_fitted"]["E_S" if mk.startswith("power") else "E"].value /
                     truth["E_S" if mk.startswith("power") else "E"].value - 1) < 1e-2 + 60 * rel_noise
             key = f"explored-not-asserted:{method}:{'recovered' if okk else 'not-recovered'}"
             ctx.dist[key] = ctx.dist.get(key, 0) + 1
             continue
-        if res != "ok" or not idnt.fit_properties.get("success"):
+        if res != "ok" or not fprops.get("success"):
             ctx.violation("no-success:" + tag, f"fit from inside the basin did not report success ({res})", rep)
             continue
-        pf = idnt.fit_properties["params_fitted"]
+        pf = fprops["params_fitted"]
         Ename = "E_S" if mk.startswith("power") else "E"
         # tolerances: optimiser precision for exact data, proportional to the noise level otherwise
         lo_prec = method in ("nelder", "powell")
@@ -210,7 +250,7 @@ def run(ctx):
         if abs(pf["baseline"].value - truth["baseline"].value) > tol_b:
             bad.append(f"baseline={pf['baseline'].value!r} (truth {truth['baseline'].value!r})")
         segm = np.asarray(idnt["segment"]) == seg
-        dev = float(np.nanmax(np.abs(np.asarray(idnt["fit"])[segm] - np.asarray(idnt0["force"])[segm])))
+        dev = float(np.nanmax(np.abs(np.asarray(fitcurve)[segm] - np.asarray(idnt0["force"])[segm])))
         if dev > ((5e-3 if lo_prec else (1e-3 if layered else 1e-5)) + 6 * rel_noise) * fmax:
             bad.append(f"fitted curve deviates {dev / fmax:.2e} F_max from the data")
         if layered and abs(pf["E_L"].value - truth["E_L"].value) > tol_rel * truth["E_L"].value:
